@@ -1,4 +1,5 @@
 import OxiVerif.Lemmas.C23
+import OxiVerif.Lemmas.C23Aes
 import OxiVerif.Model.C23
 set_option linter.unusedSimpArgs false
 set_option linter.unusedVariables false
@@ -11,10 +12,11 @@ code (`Model/C23.lean`) coincides with those definitions where the code follows 
 "The library's RC4 / AES-CBC / MD5 / SHA-2 *equal* the reference" is a correspondence claim
 (checked on every run by `drv_c23` against `harness/src/bin/c23.rs`), not a theorem.
 
-The AES block cipher enters the CBC theorems as any pair of functions that are mutually
-inverse on 16-byte blocks (`BlockInverse`); that the FIPS-197 transcription in
-`Spec/CryptoAes.lean` is such a pair is **not proved** (trusted base; it is exercised by the
-FIPS-197 / SP 800-38A vectors in `Spec/CryptoVectors.lean` and by every correspondence run).
+The CBC / ECB theorems are stated for any pair of functions that are mutually inverse on
+16-byte blocks (`BlockInverse`); that the FIPS-197 transcription in `Spec/CryptoAes.lean` is such
+a pair — for every round-key list, hence every key — is **proved** (`C23_aes_block_inverse`,
+algebraically: S-box tables, ShiftRows, the GF(2^8) MixColumns matrices, AddRoundKey), so the
+AES-CBC round trips below carry no hypothesis about the cipher.
 -/
 namespace OxiVerif.C23
 open OxiVerif.Crypto
@@ -117,19 +119,73 @@ theorem C23_ecb_roundtrip (E D : Bytes → Bytes) (h : BlockInverse E D) (data :
 
 /-! ## The wrappers of aes.rs (model) in terms of the reference -/
 
-/-- `Aes::decrypt_cbc ∘ Aes::encrypt_cbc` gives the plaintext back whenever the key schedule
-exists (16- or 32-byte key) and its block functions are mutually inverse. -/
-theorem C23_model_aes_cbc_roundtrip (key iv data : Bytes) (ks : KeySched)
-    (hk : keySched key = some ks) (hinv : BlockInverse (aesEncBlock ks) (aesDecBlock ks))
+/-- FIPS-197 InvCipher ∘ Cipher = id and Cipher ∘ InvCipher = id, for EVERY list of round keys
+and every block: the AES block function is a permutation of the 2^128 blocks. -/
+theorem C23_aes_block_permutation (ks : KeySched) (x : Blk) :
+    invCipher ks (cipher ks x) = x ∧ cipher ks (invCipher ks x) = x :=
+  ⟨invCipher_cipher ks x, cipher_invCipher ks x⟩
+
+example : invCipher ⟨⟨1,2,3,4,5,6,7,8,9,10,11,12,13,14,15,16⟩, [⟨9,9,9,9,9,9,9,9,9,9,9,9,9,9,9,9⟩], ⟨0,0,0,0,0,0,0,0,0,0,0,0,0,0,0,7⟩⟩
+    (cipher ⟨⟨1,2,3,4,5,6,7,8,9,10,11,12,13,14,15,16⟩, [⟨9,9,9,9,9,9,9,9,9,9,9,9,9,9,9,9⟩], ⟨0,0,0,0,0,0,0,0,0,0,0,0,0,0,0,7⟩⟩
+      ⟨0,1,2,3,4,5,6,7,8,9,10,11,12,13,14,15⟩) = ⟨0,1,2,3,4,5,6,7,8,9,10,11,12,13,14,15⟩ :=
+  (C23_aes_block_permutation _ _).1
+
+/-- The S-box and MixColumns facts the permutation rests on. -/
+theorem C23_aes_sbox_inverse (x : UInt8) : invSubByte (subByte x) = x ∧ subByte (invSubByte x) = x :=
+  ⟨invSubByte_subByte x, subByte_invSubByte x⟩
+
+theorem C23_aes_xtime_additive (a b : UInt8) : xtime (a ^^^ b) = xtime a ^^^ xtime b := xtime_xor a b
+
+theorem C23_aes_mixColumns_inverse (s : Blk) :
+    s.mixColumns.invMixColumns = s ∧ s.invMixColumns.mixColumns = s :=
+  ⟨Blk.invMixColumns_mixColumns s, Blk.mixColumns_invMixColumns s⟩
+
+/-- The hypothesis of the mode theorems holds for the FIPS-197 transcription (both directions). -/
+theorem C23_aes_block_inverse (ks : KeySched) :
+    BlockInverse (aesEncBlock ks) (aesDecBlock ks) ∧ BlockInverse (aesDecBlock ks) (aesEncBlock ks) :=
+  ⟨aes_blockInverse ks, aes_blockInverse' ks⟩
+
+/-- a 16- or 32-byte key has a key schedule (AES-128 / AES-256), no other length has -/
+theorem C23_keySched_isSome (key : Bytes) : (keySched key).isSome ↔ (key.length = 16 ∨ key.length = 32) := by
+  unfold keySched
+  by_cases h : key.length = 16 ∨ key.length = 32 <;> simp [h]
+
+/-- AES-CBC with PKCS#7 (reference): decryption returns the plaintext, for every 16- or 32-byte
+key, 16-byte IV and byte string — no hypothesis about the cipher. -/
+theorem C23_aes_cbc_pkcs7_roundtrip (key iv data : Bytes) (hk : key.length = 16 ∨ key.length = 32)
+    (hiv : iv.length = 16) :
+    ∃ c, aesCbcPadEnc key iv data = some c ∧ aesCbcPadDec key iv c = some data ∧
+      c.length = (data.length / 16 + 1) * 16 := by
+  obtain ⟨ks, hks⟩ := Option.isSome_iff_exists.1 ((C23_keySched_isSome key).2 hk)
+  have hinv := aes_blockInverse ks
+  have hl := C23_cbc_pkcs7_length _ _ hinv iv data hiv
+  refine ⟨cbcEnc (aesEncBlock ks) iv (pkcs7Pad data), by simp [aesCbcPadEnc, hks], ?_, hl⟩
+  simp only [aesCbcPadDec, hks]
+  rw [if_neg (by rw [hl]; omega)]
+  exact C23_cbc_pkcs7_roundtrip _ _ hinv iv data hiv
+
+example : ∃ c, aesCbcPadEnc (List.replicate 16 1) (List.replicate 16 2) [1, 2, 3] = some c ∧
+    aesCbcPadDec (List.replicate 16 1) (List.replicate 16 2) c = some [1, 2, 3] ∧ c.length = 16 :=
+  C23_aes_cbc_pkcs7_roundtrip _ _ _ (by simp) (by simp)
+
+/-- `Aes::decrypt_cbc ∘ Aes::encrypt_cbc` (model of aes.rs) gives the plaintext back for every
+16- or 32-byte key, every 16-byte IV and every byte string. -/
+theorem C23_model_aes_cbc_roundtrip (key iv data : Bytes) (hk : key.length = 16 ∨ key.length = 32)
     (hiv : iv.length = 16) :
     ∃ c, aesEncryptCbc key iv data = .ok c ∧ aesDecryptCbc key iv c = .ok data := by
+  obtain ⟨ks, hks⟩ := Option.isSome_iff_exists.1 ((C23_keySched_isSome key).2 hk)
+  have hinv := aes_blockInverse ks
   refine ⟨cbcEnc (aesEncBlock ks) iv (pkcs7Pad data), ?_, ?_⟩
-  · simp [aesEncryptCbc, aesCbcPadEnc, hk, hiv]
+  · simp [aesEncryptCbc, aesCbcPadEnc, hks, hiv]
   · have hl := C23_cbc_pkcs7_length _ _ hinv iv data hiv
     have hr := C23_cbc_pkcs7_roundtrip _ _ hinv iv data hiv
-    simp only [aesDecryptCbc, hk, hiv]
+    simp only [aesDecryptCbc, hks, hiv]
     rw [if_neg (by simp), if_neg (by rw [hl]; omega)]
     simp [hr]
+
+example : ∃ c, aesEncryptCbc (List.replicate 32 7) (List.replicate 16 0) [] = .ok c ∧
+    aesDecryptCbc (List.replicate 32 7) (List.replicate 16 0) c = .ok [] :=
+  C23_model_aes_cbc_roundtrip _ _ _ (by simp) (by simp)
 
 /-! ## Algorithms 2–7 (revisions 2–4) -/
 
